@@ -231,8 +231,22 @@ Definition format_files_model (max_passes : nat) (folders : list (list file))
   : list folder * list (list Fid) :=
   passes max_passes (map (init_folder max_passes) folders).
 
-(* return value: any(changes for changes, _ in module_changes_pass_counts.values()) *)
+(* return value since feb2676: any_changes, the disjunction of any(results) over the passes that ran.
+   any(results) of a pass = some folder's new `changes` flag (inactive folders get False). *)
+Fixpoint passes_any (n : nat) (ds : list folder) : bool :=
+  match n with
+  | O => false
+  | S n' => if existsb active ds
+            then existsb f_changes (map pass_folder ds) || passes_any n' (map pass_folder ds)
+            else false
+  end.
+
 Definition format_files_result (max_passes : nat) (folders : list (list file)) : bool :=
+  passes_any max_passes (map (init_folder max_passes) folders).
+
+(* the return value before feb2676: any(changes for changes, _ in module_changes_pass_counts.values()),
+   i.e. only whether the LAST pass of some folder changed something (kept for old_result_refuted) *)
+Definition format_files_last_flags (max_passes : nat) (folders : list (list file)) : bool :=
   existsb f_changes (fst (format_files_model max_passes folders)).
 
 (* one folder on its own: the reading that the bookkeeping theorem compares against *)
@@ -429,7 +443,7 @@ Definition files_case_ok (c : files_case) : bool :=
   let r := format_files_model nat nat (files_ff c) (fs_max_passes c) (fs_folders c) in
   pairs_eqb (fold_right insert_pair [] (flat_map f_files (fst r))) (fs_exp_final c)
   && lists_eqb (map sort_nodup (snd r)) (fs_exp_passes c)
-  && Bool.eqb (existsb f_changes (fst r)) (fs_exp_result c).
+  && Bool.eqb (format_files_result nat nat (files_ff c) (fs_max_passes c) (fs_folders c)) (fs_exp_result c).
 
 (* guarded pass / fix loop cases (fault injection into processing.fix / chain / sub) *)
 Record guard_case := mkGuardCase {
